@@ -46,3 +46,6 @@ Definition feed (pending seg : list N) : list framed * list N :=
   let '(ls, r) := lines_of (pending ++ seg) in (frames_of ls r, r).
 
 Definition closed (fs : list framed) : bool := existsb (fun f => match f with FTooLong => true | _ => false end) fs.
+
+(* the encoder side of the codec (IRCLinesCodec::encode): the line followed by CR LF *)
+Definition encode (l : list N) : list N := l ++ [CR; LF].
